@@ -66,4 +66,82 @@ theorem MemStore.keyEq_refl (s : MemStore) (k : NHash) : s.keyEq k k = true := b
   · exact NHash.beq_refl k
   · exact hashKeyEq_refl k
 
+/-! ### the table is a lossy map -/
+
+theorem MemStore.keyEq_of_find (s : MemStore) (key : NHash) (p : NHash × Val) (h : s.find? key = some p) :
+    p ∈ s.table ∧ s.keyEq p.1 key = true := by
+  unfold MemStore.find? at h
+  exact ⟨List.mem_of_find?_eq_some h, by simpa using List.find?_some h⟩
+
+/-- a hit returns the value of an entry whose key equals the requested one -/
+theorem MemStore.get_hit (s : MemStore) (key : NHash) (v : Val) (h : (s.get key).1 = some v) :
+    ∃ p ∈ s.table, p.2 = v ∧ s.keyEq p.1 key = true := by
+  unfold MemStore.get at h
+  cases hf : s.find? key with
+  | none => simp [hf] at h
+  | some p =>
+    obtain ⟨k, v'⟩ := p
+    obtain ⟨hm, hk⟩ := MemStore.keyEq_of_find s key _ hf
+    simp only [hf] at h
+    cases hs : s.size <;> simp only [hs] at h <;> (injection h with h; subst h; exact ⟨_, hm, rfl, hk⟩)
+
+/-- `get` never invents entries, and keeps the kind of the store -/
+theorem MemStore.get_sub (s : MemStore) (key : NHash) :
+    (∀ p ∈ (s.get key).2.table, p ∈ s.table) ∧ (s.get key).2.exact = s.exact := by
+  unfold MemStore.get
+  cases hf : s.find? key with
+  | none => exact ⟨fun p hp => hp, rfl⟩
+  | some q =>
+    obtain ⟨k, v⟩ := q
+    cases hs : s.size with
+    | none => exact ⟨fun p hp => hp, rfl⟩
+    | some n =>
+      refine ⟨fun p hp => ?_, rfl⟩
+      simp only [List.mem_cons] at hp
+      rcases hp with rfl | hp
+      · exact (MemStore.keyEq_of_find s key _ hf).1
+      · exact (List.mem_filter.mp hp).1
+
+/-- every entry after `set key v` is an old entry or carries `v` under a key equal to `key` -/
+theorem MemStore.set_sub (s : MemStore) (key : NHash) (v : Val) :
+    (∀ p ∈ (s.set key v).table, p ∈ s.table ∨ (p.2 = v ∧ s.keyEq p.1 key = true)) ∧ (s.set key v).exact = s.exact := by
+  unfold MemStore.set
+  cases hs : s.size with
+  | none =>
+    cases hf : s.find? key with
+    | none =>
+      refine ⟨fun p hp => ?_, rfl⟩
+      simp only [List.mem_append, List.mem_singleton] at hp
+      rcases hp with hp | rfl
+      · exact .inl hp
+      · exact .inr ⟨rfl, s.keyEq_refl key⟩
+    | some q =>
+      obtain ⟨k, v0⟩ := q
+      have hk := (MemStore.keyEq_of_find s key _ hf).2
+      refine ⟨fun p hp => ?_, rfl⟩
+      simp only [List.mem_map] at hp
+      obtain ⟨q, hq, rfl⟩ := hp
+      obtain ⟨k', v'⟩ := q
+      simp only
+      split
+      · exact .inr ⟨rfl, hk⟩
+      · exact .inl hq
+  | some n =>
+    cases hf : s.find? key with
+    | none =>
+      refine ⟨fun p hp => ?_, rfl⟩
+      have := List.mem_of_mem_take hp
+      simp only [List.mem_cons] at this
+      rcases this with rfl | h
+      · exact .inr ⟨rfl, s.keyEq_refl key⟩
+      · exact .inl h
+    | some q =>
+      obtain ⟨k, v0⟩ := q
+      have hk := (MemStore.keyEq_of_find s key _ hf).2
+      refine ⟨fun p hp => ?_, rfl⟩
+      simp only [List.mem_cons] at hp
+      rcases hp with rfl | hp
+      · exact .inr ⟨rfl, hk⟩
+      · exact .inl (List.mem_filter.mp hp).1
+
 end CM
